@@ -1,12 +1,18 @@
 """C32 - every well-typed Python value survives  value -> JSON wire form -> value.
 
-Spec: specs/fn/TypedValues.tla - the grammar of Hail types to depth 2, per type a finite pool of abstract values
-(boundary integers, nan / +-inf / -0.0 / float32-vs-float64 roundings, "" / ASCII / non-ASCII / escape-laden
-strings, calls of ploidy 0-2 phased and unphased, empty and nested containers, n-d arrays in C / Fortran / strided
-layout, MISSING at every nullable position), the typing relation and the type-directed equality.
-Binding B3: TLC enumerates the <<type, value>> pairs, the harness builds the real type object and value, runs the
-real HailType._to_json then HailType._from_json (hail.expr.types loaded under a bare `hail` package), reports
-the decoded object as an abstract tree, and TLC judges decoded = input under the equality of the type.
+Spec: specs/fn/TypedValues.tla - the grammar of Hail types to depth 2 (thorough tier: named combinations of depth 3),
+per type a finite pool of abstract values (boundary integers incl. the int64 extremes, nan / +-inf / -0.0 /
+float32-vs-float64 roundings (0.1, 1/3, 2^24+1), "" / ASCII / non-ASCII / escape-laden / astral-around-NUL strings,
+calls of ploidy 0-2 phased and unphased, LOCI of a three-contig reference genome (first / last position of every
+contig, a contig name with quote, backslash, space, latin-1 and astral characters), intervals of every point type with
+all four inclusiveness combinations and missing endpoints, empty and nested containers (struct / tuple dict keys, sets
+of arrays), n-d arrays of 0-3 dimensions in C / Fortran / strided layout incl. empty shapes, MISSING at every nullable
+position), the typing relation and the type-directed equality.
+Binding B3: TLC enumerates the <<type, value>> pairs, the harness builds the real type object and value with the whole
+`hail` package imported (the objects `hl.tarray(...)`, `hl.tlocus(rg)`, `hl.Locus`, `hl.Interval` users get; the
+reference genome is a real ReferenceGenome registered through the real Backend.add_reference), runs the real
+HailType._to_json then HailType._from_json, reports the decoded object as an abstract tree, and TLC judges
+decoded = input under the equality of the type.
 """
 from __future__ import annotations
 
@@ -23,13 +29,16 @@ MANIFEST = {
                  "equality on the universe (reflexive, separating), enumerates the well-typed <<type, value>> pairs and judges "
                  "every recorded to_json/from_json round trip of the real type classes (call/return conformance, B3)",
     "text": "Bounded exploration of an input-quantified property: all types of the stated grammar to depth 2 (exhaustive core + "
-            "seeded sample of the full grammar), per type a pool of boundary values with a missing value at every nullable "
+            "seeded sample of the full grammar; thorough tier: nine named depth-3 types), locus<rg> of a registered genome as a "
+            "leaf type, per type a pool of boundary values with a missing value at every nullable "
             "position; leaves are symbolic names concretised by a table in checks/_typedvalues.py. The specification "
             "contributes the universe, the typing relation and the equality (no transition system): labelled exploration.",
     "note": "Trusts: TLC + CommunityModules Json/IOUtils; the name<->object table and the run-time-class abstraction in "
-            "checks/_typedvalues.py (cross-checked by TLC: every input must be WellTyped). NOT covered: locus and "
-            "interval<locus> (need a reference genome = a backend), numpy scalars / pandas.NA as leaves, values deeper than 2, "
-            "the engine's own JSON reader (Scala; not runnable).",
+            "checks/_typedvalues.py (cross-checked by TLC: every input must be WellTyped); the reference genome is built with "
+            "_builtin=True (the constructor's backend call is skipped) and held by a registry object that only owns the dict "
+            "(look-up / registration are the real Backend methods). NOT covered: numpy scalars / pandas.NA as leaves, "
+            "types deeper than 3, loci outside their contig, the extra escaping of the IR-text form (dump_json) that "
+            "TableFilterIntervals / readers apply to _convert_to_json output, the engine's own JSON reader (Scala; not runnable).",
     "design_ref": "DESIGN.md section 5, C32",
 }
 
@@ -80,8 +89,14 @@ def run(ctx):
     pool.shutdown()
     if '"selfcheck"' not in out:
         raise RuntimeError("TypedValuesSelf did not reach the end of SelfCheck")
-    if stats["with_missing"] == 0 or stats["depth2_cases"] == 0:
+    if stats["with_missing"] == 0 or stats["depth2_cases"] == 0 or stats["cases_with_locus"] == 0 or \
+            (not ctx.quick and stats["depth3_cases"] == 0):
         raise RuntimeError(f"vacuous universe: {stats}")
+    # a locus decoded under a type must carry the genome of the TYPE even when another genome has the same contigs
+    Lt = H.types.tlocus(H.rgs["vrg"])
+    back = Lt._from_json(Lt._to_json(H.Locus("MT", 1, reference_genome=H.rgs["vrg"])))
+    if back.reference_genome is H.decoy or tv.abstract(H, back)["rg"] != "vrg":
+        raise RuntimeError("harness: genome of a decoded locus is not reported")
 
     # ---- outside the universe, reported only -----------------------------------------------------------------
     T = H.types
@@ -107,7 +122,9 @@ def run(ctx):
     ctx.cov.update(evaluations=n, distinct_nontrivial=stats["nontrivial_types"], exhaustive=False,
                    rule=f"TLC enumerates Opt(Vals(t, 2)) for every type t of CoreTypes (level {level}: primitives, all one-level "
                         f"constructions, one construction of every kind around the selected depth-1 types, two 9-field "
-                        f"tuple/struct types, n-d arrays of the 5 numeric element types with ndim 0-3) plus {stats['extra_types']} "
+                        f"tuple/struct types, n-d arrays of the 5 numeric element types with ndim 0-3, 8 named depth-2 combinations "
+                        f"with loci / struct and tuple dict keys / sets of arrays{'' if ctx.quick else ', 9 named depth-3 types'}; "
+                        f"locus<vrg> is a leaf type) plus {stats['extra_types']} "
                         f"types drawn with seed {ctx.seed} from the whole depth-2 grammar; each pair is one _to_json/_from_json round "
                         "trip of the real classes judged by TLC (Match); non-trivial = distinct non-primitive types exercised")
     ctx.cov["universe"] = stats
@@ -115,9 +132,12 @@ def run(ctx):
     step = max(1, n // 6)
     for c in cases[::step][:6]:
         ctx.sample({"type": tv.type_str(c["t"]), "value": c["v"], "decoded": c["w"], "error": c["err"]})
-    ctx.assume("locus and interval<locus> are not in the universe: tlocus needs a reference genome, i.e. a backend, which cannot exist offline",
-               "hail/__init__.py cannot run offline; hail.expr.types is loaded under a bare package and the two names tinterval reads from "
-               "the package root (hl.tbool, hl.Interval) are bound to hail.expr.types.tbool / hail.utils.Interval, as __init__ would",
+    ctx.assume("the whole hail package is imported offline (vlib.loader; parsimonious is served by the MiniPEG stand-in); no backend "
+               "exists: the reference genome verif_rg (contigs '1' (249250621), 'c\"\\ \u00e9\U0001f600' (300), 'MT' (1)) is a real "
+               "ReferenceGenome built with _builtin=True and registered with the real Backend.add_reference; a second genome with the same "
+               "contig names is registered as a decoy; there is no default reference",
+               "a locus is equal to another when genome (of the type), contig and position agree; positions range over 1..length "
+               "(hail.genetics.Locus itself does not validate them)",
                "the wire form is the string HailType._to_json produces (json.dumps of _convert_to_json_na); the extra escaping of "
                "hail.utils.jsonx.dump_json for the IR text is not part of the round trip",
                "equality: IEEE identity up to NaN payload (-0.0 differs from 0.0), float32 after rounding to float32, sets/dicts "
